@@ -51,6 +51,8 @@ type TimeSpec struct {
 //	create        CreateFile(key, size); only when the model says the key is absent
 //	read          GetFileReader + read everything + close (an access)
 //	readlater     clock += Dt seconds, then read (a consumer fetching the file later)
+//	hot           N reads of one file, the clock advancing Dt seconds (below the 5-minute last-access
+//	              resolution) before each: a file in steady use over a span that may exceed the idle limit
 //	stat          GetFileStat (loads the entry into the map without counting as an access)
 //	persist       SetFileMetadata(Persist(Flag))
 //	clearpersist  DeleteFileMetadata(Persist) (what the origin's forced cleanup does after write-back)
@@ -74,6 +76,7 @@ type Op struct {
 	Back  int      `json:"back,omitempty"` // create: the data file was written Back seconds before it entered the store (mtime = now - Back)
 	Flag  bool     `json:"flag,omitempty"`
 	Dt    int      `json:"dt,omitempty"`
+	N     int      `json:"n,omitempty"` // hot: number of reads
 	Mode  string   `json:"mode,omitempty"`
 	TTI   TimeSpec `json:"tti,omitempty"`
 	TTL   TimeSpec `json:"ttl,omitempty"`
@@ -110,7 +113,7 @@ func genSpec(t *rapid.T, label string) TimeSpec {
 func gen(t *rapid.T) Case {
 	var c Case
 	c.Cap = rapid.SampledFrom([]int{2, 3, 3, 4, 4, 16}).Draw(t, "cap")
-	kinds := []string{"create", "create", "create", "create", "create", "read", "read", "read", "readlater", "readlater", "readlater", "stat",
+	kinds := []string{"create", "create", "create", "create", "create", "read", "read", "read", "readlater", "readlater", "readlater", "hot", "hot", "hot", "stat",
 		"persist", "persist", "persist", "persist", "persist", "clearpersist", "advance", "advance", "advance", "advance", "advance",
 		"delete", "delete", "reopen", "pass", "pass", "pass", "pass", "pass", "pass"}
 	modes := []string{"normal", "normal", "normal", "aggr-ttl", "aggr-ttl", "policy", "policy", "policy", "policy", "real-aggr", "real-calm", "real-policy"}
@@ -130,6 +133,10 @@ func gen(t *rapid.T) Case {
 			op.Back = rapid.SampledFrom([]int{0, 0, 0, 1, 2, 30}).Draw(t, "back")
 		case "readlater":
 			op.Dt = rapid.SampledFrom([]int{299, 300, 301, 600, 2698, 2699, 2700, 2700, 2701, 2702, 3600, 7200}).Draw(t, "dt")
+		case "hot":
+			// every gap is below the resolution; the burst as a whole usually spans several resolutions
+			op.Dt = rapid.SampledFrom([]int{1, 60, 100, 150, 240, 299, 299}).Draw(t, "gap")
+			op.N = rapid.SampledFrom([]int{2, 2, 3, 3, 4, 5, 6, 8, 12, 20}).Draw(t, "n")
 		case "persist":
 			op.Flag = rapid.IntRange(0, 5).Draw(t, "flag") > 0
 		case "advance":
@@ -178,6 +185,13 @@ type fileModel struct {
 	latLo, latHi int64
 }
 
+// hotParams clamps a hot op to its domain: 1..maxHot reads, gaps of 1..resolution-1 seconds.
+func hotParams(op Op) (n int, gap int64) {
+	return min(max(op.N, 1), maxHot), int64(min(max(op.Dt, 1), resolution-1))
+}
+
+const maxHot = 64 // cap on the reads of one hot op (replay files are not trusted to be small)
+
 const resolution = 300 // documented: "Min timespan between two updates of LAT for the same file" = 5 minutes
 
 func touched(lat, now int64) int64 {
@@ -222,6 +236,8 @@ type world struct {
 	m     [nKeys]fileModel
 	// shadow of the LRU map order, used ONLY to label classes (never by the oracle)
 	lru []int
+	// labels only: keys that went through a hot burst spanning more than two resolutions
+	hot [nKeys]bool
 }
 
 // pick maps a drawn index to the idx-th absent (wantAbsent) or existing key, -1 when there is none.
@@ -470,6 +486,10 @@ func run(c Case) pbt.Verdict {
 			if op.Kind == "readlater" && op.Dt > 0 {
 				w.clk.Add(time.Duration(op.Dt) * time.Second)
 			}
+			if op.Kind == "hot" {
+				n, gap := hotParams(op)
+				w.clk.Add(time.Duration(int64(n)*gap) * time.Second)
+			}
 			if op.Kind != "advance" && op.Kind != "reopen" && op.Kind != "pass" {
 				continue
 			}
@@ -495,6 +515,7 @@ func run(c Case) pbt.Verdict {
 			if err := os.Chtimes(filepath.Join(w.dataDir(k), base.DefaultDataFileName), mt, mt); err != nil {
 				return pbt.Verdict{Discard: true}
 			}
+			w.hot[k] = false
 			*f = fileModel{exists: true, size: int64(op.Size), mtime: mt.Unix(), latLo: now.Unix(), latHi: now.Unix()}
 			noteLoad(k)
 			if msg := resync(when, -1); msg != "" {
@@ -522,6 +543,52 @@ func run(c Case) pbt.Verdict {
 			}
 			if msg := resync(when, -1); msg != "" {
 				return pbt.Fail("%s", msg)
+			}
+		case "hot":
+			// The file is read N times, every gap below the documented resolution. The model
+			// applies the documented rule to every read, so after the burst the recorded last
+			// access is never a full resolution behind the last read.
+			n, gap := hotParams(op)
+			first := w.now()
+			refreshed := false
+			for j := 0; j < n; j++ {
+				w.clk.Add(time.Duration(gap) * time.Second)
+				r, err := w.op().GetFileReader(name, 0)
+				if err == nil {
+					b, rerr := io.ReadAll(r)
+					r.Close()
+					if f.exists && f.persist && (rerr != nil || int64(len(b)) != f.size) {
+						return pbt.Fail("file awaiting write-back does not read back\n  %s, read %d: %d bytes, %v (created with %d)", when, j, len(b), rerr, f.size)
+					}
+				} else if f.exists && f.persist {
+					return pbt.Fail("file awaiting write-back cannot be opened\n  %s, read %d: %v", when, j, err)
+				}
+				if f.exists {
+					noteLoad(k)
+					if err == nil {
+						was := f.latHi
+						f.access(w.now())
+						// labels: a refresh whose preceding read was less than a resolution ago
+						if f.latHi != was && j > 0 {
+							refreshed = true
+						}
+					}
+				}
+				if msg := resync(when, -1); msg != "" {
+					return pbt.Fail("%s", msg)
+				}
+				if !f.exists {
+					break
+				}
+			}
+			if f.exists {
+				classes["hot-file-burst"] = true
+				if refreshed {
+					classes["hot-file-burst-refreshed-last-access-mid-burst"] = true
+				}
+				if w.now()-first > 2*resolution {
+					w.hot[k] = true
+				}
 			}
 		case "stat":
 			w.op().GetFileStat(name)
@@ -832,6 +899,9 @@ func (w *world) pass(i int, op Op, realUtil int) (msg string, classes []string, 
 		}
 		if exact && !evictionPossible && (exp[k].mustDelete || exp[k].mustKeep) {
 			add("pass-file-judged-exactly")
+			if w.hot[k] {
+				add("pass-judged-hot-file-exactly")
+			}
 		}
 		if !exp[k].mustDelete && !exp[k].mustKeep {
 			add("pass-file-ambiguous-last-access")
@@ -929,7 +999,7 @@ func TestMain(m *testing.M) {
 func TestProp(t *testing.T) {
 	pbt.Main(t, pbt.Spec{
 		ID: "C10",
-		Rule: "rapid draws an LRU file-map capacity (2,3,4 or 16), a setup prefix (2-4 creates, usually one persist) and 4-36 further ops over 5 content-addressed file names on base.NewCASFileStoreWithLRUMap with a mock clock: create (only absent keys; mtime set to the clock), read (now or after a drawn delay), stat, set/clear the persist flag (SetFileMetadata / DeleteFileMetadata), clock advances from a menu around the 5-minute resolution, 45-minute and TTI/TTL boundaries, delete, reopen, and cleanup passes (normal cleanup(); ttlBasedCleanup with aggressive TTL, lower threshold and injected disk usage; customPolicyBasedCleanup with cachedInAgentPolicy and injected disk usage; cleanup() in aggressive / calm / policy mode decided by the real disk utilisation) whose TTI/TTL are absolute or placed -1/0/+1 s around the idle time / age of a chosen file. " +
+		Rule: "rapid draws an LRU file-map capacity (2,3,4 or 16), a setup prefix (2-4 creates, usually one persist) and 4-36 further ops over 5 content-addressed file names on base.NewCASFileStoreWithLRUMap with a mock clock: create (only absent keys; mtime set to the clock), read (now or after a drawn delay), hot (2-20 reads of one file with a fixed gap of 1-299 s, i.e. below the last-access resolution, before each: a file in steady use, the burst usually spanning several resolutions), stat, set/clear the persist flag (SetFileMetadata / DeleteFileMetadata), clock advances from a menu around the 5-minute resolution, 45-minute and TTI/TTL boundaries, delete, reopen, and cleanup passes (normal cleanup(); ttlBasedCleanup with aggressive TTL, lower threshold and injected disk usage; customPolicyBasedCleanup with cachedInAgentPolicy and injected disk usage; cleanup() in aggressive / calm / policy mode decided by the real disk utilisation) whose TTI/TTL are absolute or placed -1/0/+1 s around the idle time / age of a chosen file. " +
 			"A reference model {exists, mtime, last access (set at creation, refreshed by an access at least 5 min after the stored value; flag writes may or may not count), persist flag} is compared with the directory after every op: (1) a persisted file keeps data, size, persist and last-access sidecars whatever was attempted (delete request must report ErrFilePersisted; LRU eviction; every pass) and reads back at the end; (2) after a normal / aggressive-without-lower-threshold pass every unprotected file with now-lastAccess > TTI or (TTL>0 and now-mtime > TTL) is gone and, when no LRU eviction can happen during the scan (files <= capacity), every other file is still there; with a lower threshold only the second half is required; (3) the usage-driven pass visits files in non-decreasing (tier, last access) order where tier 0: |access-mtime|>45 min, 1: >1 s, 2: otherwise, never skips a file that precedes a visited one, does not stop while used-deleted is above the lower threshold and does not go on once total-lower bytes are deleted and usage is below the threshold. " +
 			"evaluations = judged cleanup passes; non-trivial = a persisted file survived a delete request, an LRU eviction from the map or a pass in which it met the expiry rule, and some pass deleted a file; distinct by case hash",
 		Assumptions: []string{
